@@ -456,6 +456,10 @@ func (c *FnCtx) evalSel(env *SpecEnv, e *Expr) (Val, error) {
 }
 
 func (c *FnCtx) selectField(env *SpecEnv, x Val, name string, e *Expr) (Val, error) {
+	if _, isAlias := x.T.(*types.Alias); isAlias {
+		// os.FileInfo is io/fs.FileInfo: ghost fields are declared on the aliased type
+		x.T = types.Unalias(x.T)
+	}
 	if x.K == KStruct {
 		st := x.T.Underlying().(*types.Struct)
 		for i := 0; i < st.NumFields(); i++ {
